@@ -271,7 +271,7 @@ impl Property for P {
             .boxed()
     }
     fn cases(&self, tier: Tier) -> u32 {
-        tier.pick(4000, 40000)
+        tier.pick(12000, 120000)
     }
     fn sweeps(&self, _tier: Tier) -> Vec<(String, Vec<Case>)> {
         let mut cells = Vec::new();
